@@ -10,7 +10,7 @@ pub fn prop() -> Prop {
     Prop {
         id: "C02",
         level: "model_checking",
-        rule: "values: every string of length <=2 (thorough <=3 over a 20-character core) over a 49-character alphabet (all C0 controls, DEL, quote, backslash, slash, U+0080, U+00FF, U+2028/9, U+D7FF, U+E000, U+FFFD, U+FFFF, U+10000, U+1F603, U+10FFFF, 'a') as a value, as a member name and inside an array; 26 boundary numbers; 17 computed numbers (results of arithmetic incl. overflow); ~90 containers of depth <=3 with 0/1/2 members and 18 array/object chains of depth 8..64; x 3 styles x utf8 on/off x 4 row separators; each case = 2 runs (output fed back); non-trivial = a character outside ' '..'~', a number that is not a small integer, or a non-empty container; distinct by construction",
+        rule: "values: every string of length <=2 (thorough <=3, and 4 over an 8-character core) over a 49-character alphabet (all C0 controls, DEL, quote, backslash, slash, U+0080, U+00FF, U+2028/9, U+D7FF, U+E000, U+FFFD, U+FFFF, U+10000, U+1F603, U+10FFFF, 'a') as a value, as a member name and inside an array; 26 boundary numbers; 17 computed numbers (results of arithmetic incl. overflow); ~90 containers of depth <=3 with 0/1/2 members and 18 array/object chains of depth 8..64; x 3 styles x utf8 on/off x 4 row separators; each case = 2 runs (output fed back); non-trivial = a character outside ' '..'~', a number that is not a small integer, or a non-empty container; distinct by construction",
         explanation: "stdout is framed by the row separator and each row is read by the independent strict RFC 8259 reader and compared with the reference value; style relations (consise has no insignificant whitespace, one-line no line break, pretty = one element/member per line with indentation c*depth, all three equal after deleting insignificant whitespace) and the byte-for-byte fixpoint of a second run are checked on every case",
         assumptions: COMMON_ASSUMPTIONS.to_vec(),
         guards: vec!["control-character", "astral-character", "pretty-nested", "computed-non-finite", "separator-without-newline", "utf8-on"],
@@ -390,11 +390,21 @@ fn run(ctx: &mut Ctx) {
         }
     }
     if ctx.tier == Tier::Thorough {
-        let core: Vec<char> = vec!['\u{0}', '\u{1}', '\u{8}', '\n', '\u{1f}', '\u{7f}', '"', '\\', '/', '\u{80}', '\u{2028}', '\u{d7ff}', '\u{e000}', '\u{ffff}', '\u{10000}', '\u{1f603}', '\u{10ffff}', 'a', ' ', '\u{fffd}'];
+        // every string of length 3 over the whole alphabet, and of length 4 over an 8-character core
+        for a in &sigma {
+            for b in &sigma {
+                for c in &sigma {
+                    strs.push(format!("{a}{b}{c}"));
+                }
+            }
+        }
+        let core: Vec<char> = vec!['\u{1}', '\n', '"', '\\', '\u{7f}', '\u{2028}', '\u{1f603}', 'a'];
         for a in &core {
             for b in &core {
                 for c in &core {
-                    strs.push(format!("{a}{b}{c}"));
+                    for d in &core {
+                        strs.push(format!("{a}{b}{c}{d}"));
+                    }
                 }
             }
         }
